@@ -12,6 +12,7 @@ import itertools
 from lib import common as C
 from lib import pool
 from lib.runner import Outcome
+from gen import c02classes as K
 
 ID = "C02"
 LEAN_TARGETS = ["CLModel.Props.C02"]
@@ -40,7 +41,9 @@ THEOREMS = [
     (M, "C02.license_standalone_base",
      "base getNext (dtd, ini, po): a comment at offset < 2 whose value contains License is returned as a standalone comment"),
     (M, "C02.license_standalone_po", "po: instance of the base rule"),
-    (M, "C02.license_standalone_ini", "ini: instance of the base rule (the section test comes first; text not starting with `[`)"),
+    (M, "C02.license_standalone_ini",
+     "ini: instance of the base rule for EVERY comment (the section test comes first, but where reComment matches the text starts with ; or #, never with `[`: no extra hypothesis any more)"),
+    (M, "C02.ini_comment_starts_with_marker", "ini: where IniParser.reComment matches, the text starts with `;` or `#`"),
     (M, "C02.license_standalone_dtd", "dtd: instance of the base rule, with and without byte-order mark"),
     (M, "C02.ini_single_record_partial",
      "ini: getNext at `key=value` followed by newline/end (key without = and newline, not starting with [ ; # or white-space) "
@@ -65,26 +68,65 @@ THEOREMS = [
     (M, "C02.garbage_local_properties_partial",
      "properties: records, ONE inert garbage line g (no = : # ! newline, not starting with white-space), records: the walk is "
      "the records' entries plus exactly one junk entry whose text is `g\\n`; all records recovered unchanged"),
+    (M, "C02.roundtrip_po_partial",
+     "po: ANY list of blocks — records (optional #-comment lines, optional white-space with <= 1 newline, optional msgctxt list, msgid list, "
+     "msgstr list; every list = one or more quoted fragments each preceded by any white-space, fragments = tokens of reListItem incl. the "
+     "escapes; any white-space between and after) and free comment blocks (followed by >= 2 newlines) — walks to exactly the entities "
+     "(full/own/key/value/pre-comment spans) + white-space/comment entries; views: key = one-pass unescape of the msgid fragments, context, "
+     "raw value, value (msgstr or msgid), comment; no junk"),
+    (M, "C02.po_record_at", "po: one such record at any offset: getNext = the entity, createEntity = the parts (fragment spans), view"),
+    (M, "C02.roundtrip_properties_full_partial",
+     "properties: ANY list of blocks — records (optional multi-line #/! comment block, newline+indent, key, blanks [:=] blanks, value of "
+     "continued lines (odd number of final backslashes) + last line (even number, no trailing white-space), newline + any white-space) and "
+     "free comment blocks — walks to exactly the entities + white-space/comment entries; the VALUE SPAN IS EXACTLY THE PRINTED RAW VALUE; "
+     "views: key, raw, value = documented unescape of raw, comment lines without markers; no junk"),
+    (M, "C02.props_record_span",
+     "properties: one such record at any offset: getNext = the entity, contents[val_span] = the printed raw value (escapes, continuation "
+     "lines and indentation included), view"),
+    (M, "C02.comment_block_val", "OffsetComment.val of a multi-line #/! comment block: every line loses exactly its marker"),
+    (M, "C02.getJunk_earliest",
+     "Parser.getJunk: if none of the end-of-junk expressions matches strictly inside (off, e) and one matches at e (or e is the end of "
+     "the text and none matches there), the junk entry is off..e — later matches of the OTHER expressions (e.g. the key regex inside a "
+     "comment that follows the junk) are irrelevant: the earliest match of ANY expression ends the junk"),
+    (M, "C02.garbage_local_properties",
+     "properties: ANY list of blocks of roundtrip_properties_full_partial (records with multi-line comments, continuation lines..., free "
+     "comments), each optionally preceded by ONE inert garbage line (+ newline and white-space), optionally a final garbage line — also in "
+     "front of a comment whose text is `key=value`: exactly one junk entry per garbage line with exactly that text; all records unchanged"),
+    (M, "C02.roundtrip_ini_full_partial",
+     "ini: ANY list of blocks — `[name]` sections (optionally with comment lines directly before: stand-alone comment), records key=value "
+     "with optional attached ;/# comment block and indentation, free comment blocks, blank lines — each optionally preceded by an inert "
+     "garbage line, optional final garbage: exactly the section/entity/comment/white-space/junk entries; views; junk = the garbage lines"),
+    (M, "C02.garbage_local_po",
+     "po: ANY list of blocks of roundtrip_po_partial, each optionally preceded by an inert garbage line (no `m`, `#`, newline; not "
+     "starting with white-space or a quote) — also in front of `#| msgid \"old\"` comments: one junk entry per garbage line, records unchanged"),
+    (M, "C02.roundtrip_dtd_full_partial",
+     "dtd: optional BOM + ANY list of blocks — entity declarations with any white-space between the parts, double- or single-quoted "
+     "values, optional attached comment; free comments; parameter entities `<!ENTITY % n SYSTEM \"u\"> %n;` (junk from Parser.getNext, then "
+     "rePE: dtd.py 110-111) — each (except parameter entities) optionally preceded by inert garbage (no `<`): exactly the entries (value "
+     "span between the quotes; PE value span with quotes), views, junk = the garbage"),
+    (M, "C02.dtd_parameter_entity", "dtd: getNext at a printed parameter entity (any offset) is the entity with name span and quoted-url span"),
+    (M, "C02.roundtrip_inc_full_partial",
+     "inc: ANY list of blocks — #define records with optional attached `# ` comment block, free comment blocks, instructions (#filter "
+     "emptyLines / #unfilter emptyLines switch ctx.filter_empty_lines; blank lines are white-space only while it is on) — each optionally "
+     "preceded by an inert garbage line (no `#`): exactly the instruction/entity/comment/white-space/junk entries, views, junk = the garbage"),
     (M, "C02.po_single_record_partial",
      "po: getNext at `msgid \"K\"\\nmsgstr \"V\"\\n` (K, V without quote, backslash, newline; not followed by a continuation "
      "fragment) is the entity with key span `msgid \"K\"`, value span `msgstr \"V\"`; one fragment each; eval = K resp. V; view"),
 ]
 PARTIAL = [
-    "roundtrip_properties_partial / props_single_record / roundtrip_properties_comments_partial: only records with safe keys "
-    "(no # ! = : and no white-space) and safe values (no backslash, no newline, blank-free ends), separator `=`, one newline "
-    "after each record, at most ONE one-line `# ` comment per record; escapes in values are covered by props_unescape_is_spec, "
-    "but spans of values with continuation lines, multi-line / `!` comments, other separators and layouts are covered by the "
-    "differential harness only",
-    "roundtrip_ini_partial: one section header, records `key=value`, single newlines; no comments / blank lines / CRLF",
-    "roundtrip_inc_partial: `#define KEY value` with ONE blank, ASCII `\\w` keys, single newlines (no blank lines, so the "
-    "`#filter emptyLines` state is not exercised); no comments, no other instructions",
-    "roundtrip_dtd_partial: double-quoted values without `\"` and `&`, ASCII names, one blank between the parts, single "
-    "newlines; no comments, no parameter entities, no BOM; values with `&` need html.unescape (external)",
-    "po_single_record_partial: ONE record with one fragment per string list, no escapes, no msgctxt, no comments; lists of PO "
-    "records are differential only",
-    "garbage_local_properties_partial: properties only, one garbage line between plain safe records; garbage locality for "
-    "the other formats, with comments, and for the harness' whole garbage family is differential only",
-    "license_standalone_ini needs the extra hypothesis that the text at the offset is not `[` (true for every comment, not proved)",
+    "round 4: the whole-file theorems (roundtrip_properties_full_partial, roundtrip_po_partial, roundtrip_ini_full_partial, "
+    "roundtrip_inc_full_partial, roundtrip_dtd_full_partial and the garbage_local_* theorems) cover printed BLOCK classes, not all texts; "
+    "outside them, decided by the printer -> real parser -> expected-by-construction oracle and the model correspondence only: "
+    "properties keys containing blanks/tabs, a last record without final newline, a value whose last physical line is blank, CRLF; "
+    "po `#~` obsolete records (comments for the parser), a final comment without newline; ini indented records without comment, "
+    "comments before garbage; inc tabs / several blanks after `#define`, non-ASCII `\\w` keys, instructions starting with `d`; "
+    "dtd non-ASCII names, values with `&` (html.unescape is external), several comments in front of one entity, comments inside the "
+    "tail of a parameter entity",
+    "garbage lines are restricted to inert ones (no character that could start/contain a key, comment or section of the format); the "
+    "harness' garbage family (`<!ENTITY missing.value>`, `msgstr \"orphan\"`, `#define`, ...) is wider and oracle-only; garbage directly "
+    "in front of a DTD parameter entity is NOT local (the junk swallows it: neither reKey nor reComment matches there) and is excluded",
+    "the round-2/3 theorems (roundtrip_properties_partial, roundtrip_ini_partial, roundtrip_inc_partial, roundtrip_dtd_partial, "
+    "po_single_record_partial, garbage_local_properties_partial, ...) are special cases of the round-4 ones and are kept",
     "Fluent and Android: parsing is done by fluent.syntax / expat+minidom which are not modelled; decided by the printer->real "
     "parser->expected-records oracle only (plus the fluentwalk correspondence for the white-space/junk trimming)",
     "DTD .val goes through html.unescape (external): checked against an independent small entity table, not proved",
@@ -101,14 +143,20 @@ ASSUMPTIONS = [
 ]
 LEVEL_TEXT = (
     "Lean 4 theorems over executable transliterations of the parsers: for ALL raw values the properties unescape (regex "
-    "substitution) equals the documented one-pass rules; the PO unescape (regex substitution) equals the one-pass rules for ALL fragments; an unbounded class of printed properties files parses back to exactly "
-    "the printed records; the License rule holds for properties and the base getNext.  All seven formats, the full value "
+    "substitution) equals the documented one-pass rules; the PO unescape (regex substitution) equals the one-pass rules for ALL fragments; "
+    "for each of the five regex formats an unbounded class of whole files (lists of printed blocks: records with attached comments, "
+    "free comments, sections / instructions / parameter entities, blank lines, continuation lines and escapes, string lists of several "
+    "fragments, each block optionally preceded by an inert garbage line) parses back to exactly the printed records (every span, key, "
+    "raw value, value, attached comment) with exactly the garbage lines as junk — including garbage directly in front of a comment whose "
+    "text is a complete record (getJunk takes the earliest match of any of its expressions); the License rule holds for properties and "
+    "the base getNext (ini without extra hypothesis).  All seven formats, the full value "
     "grammar, layouts, comments and garbage insertion are checked by a printer -> real parser -> expected-by-construction "
     "oracle (bounded-exhaustive small documents + seeded random larger ones) and by model/implementation correspondence")
 LEVEL_NOTE = (
     "trusted: Lean kernel, regex engine model (validated differentially), hand-written parser models (validated by "
-    "correspondence on the same printed documents); round-trip theorems are partial (safe keys/values, properties and ini "
-    "only); Fluent/Android rest on the oracle alone; DTD html.unescape is external")
+    "correspondence on the same printed documents, incl. the class documents of the whole-file theorems whose expected entries are "
+    "known by construction); whole-file theorems cover printed block classes (not all texts); Fluent/Android rest on the oracle alone; "
+    "DTD html.unescape is external")
 TECHNIQUE = "Lean 4 proof over executable parser models + printer/parser round-trip oracle + differential correspondence"
 
 REGEX_FORMATS = ("properties", "dtd", "ini", "inc", "po")
@@ -653,36 +701,61 @@ MULTI_COMMENT = {
 }
 
 
+# comments whose TEXT is itself a complete, valid record of the format (a commented-out entity, a `#| msgid` previous-source
+# line, ...): the key regex matches INSIDE such a comment, so `getJunk` must take the EARLIEST match of any of its expressions
+# (the comment start) for junk in front of it to stay local
+RECORD_COMMENT = {
+    "properties": ("#old.key=old value\n! other = x", "old.key=old value\n other = x"),
+    "dtd": ('<!-- Was: <!ENTITY second "zwei"> -->', ' Was: <!ENTITY second "zwei"> '),
+    "ini": ("; old=value\n#k2=v2", " old=value\nk2=v2"),
+    "inc": ("# #define OLD value", "#define OLD value"),
+    "po": ('#| msgid "old"\n#| msgctxt "c"\n', '#| msgid "old"\n#| msgctxt "c"\n'),
+    "ftl": ("# old = value", "old = value"),
+    "android": ('<!-- <string name="old">v</string> -->', '<string name="old">v</string>'),
+}
+FREE_RECORD = {   # the same as a standalone comment block (with its separator) in a gap: garbage lands directly after / before it
+    "properties": "#old.key=old value\n\n", "dtd": '<!-- <!ENTITY old "v"> -->\n\n', "ini": "; old=value\n\n",
+    "inc": "# #define OLD value\n\n", "po": '#~ msgid "old"\n#~ msgstr "alt"\n\n\n', "ftl": "## old = value\n\n",
+    "android": '<!-- <string name="old">v</string> -->\n\n  ',
+}
+
+
 def layouts(fmt):
     """(name, dict) list: the fixed layouts of the bounded-exhaustive part"""
     if fmt == "properties":
         return [dict(gaps=["\n"], end="\n"), dict(gaps=["\n\n"], end="", sep=" = ", trail="  "), dict(gaps=["\n \n"], end="\n\n", sep=":", indent="  "),
                 dict(gaps=["\n", "\n\n" + FREE[fmt]], end="\n", sep="\t=\t", trail="\t"), dict(lead="\n", gaps=["\n"], end="", sep=" :"),
-                dict(gaps=["\n" + FREE2[fmt], "\n \n" + FREE2[fmt] + "\t"], end="\n")]
+                dict(gaps=["\n" + FREE2[fmt], "\n \n" + FREE2[fmt] + "\t"], end="\n"),
+                dict(gaps=["\n" + FREE_RECORD[fmt], "\n\n" + FREE_RECORD[fmt]], end="\n")]
     if fmt == "dtd":
         return [dict(gaps=["\n"], end="\n"), dict(gaps=["\n\n"], end="", w1="\n  ", w2="\t", w3=" ", cws=" "), dict(gaps=[""], end="", cws=""),
                 dict(gaps=["\n", "\n\n" + FREE[fmt]], end="\n", q="'"), dict(lead="\ufeff", gaps=["\n"], end="\n"), dict(lead="\n", gaps=["\n"], end=""),
-                dict(gaps=["\n" + FREE2[fmt], " " + FREE2[fmt] + "  "], end="\n")]
+                dict(gaps=["\n" + FREE2[fmt], " " + FREE2[fmt] + "  "], end="\n"),
+                dict(gaps=["\n" + FREE_RECORD[fmt], "\n\n" + FREE_RECORD[fmt]], end="\n")]
     if fmt == "ini":
         return [dict(gaps=["\n"], end="\n"), dict(gaps=["\n\n"], end=""), dict(head="[Strings]\n", gaps=["\n"], end="\n"),
                 dict(gaps=["\n", "\n\n" + FREE[fmt]], end="\n", indent="  "), dict(lead="\n", gaps=["\n"], end=""),
-                dict(gaps=["\n" + FREE2[fmt], "\n\n" + FREE2[fmt]], end="\n")]
+                dict(gaps=["\n" + FREE2[fmt], "\n\n" + FREE2[fmt]], end="\n"),
+                dict(gaps=["\n" + FREE_RECORD[fmt], "\n\n" + FREE_RECORD[fmt]], end="\n")]
     if fmt == "inc":
         return [dict(gaps=["\n"], end="\n"), dict(gaps=["\n"], end="", w1="  ", w2="\t"),
                 dict(head="#filter emptyLines\n\n", gaps=["\n\n", "\n"], end="\n\n#unfilter emptyLines\n"),
-                dict(head="#filter emptyLines\n", gaps=["\n\n" + FREE[fmt], "\n\n\n"], end="\n")]
+                dict(head="#filter emptyLines\n", gaps=["\n\n" + FREE[fmt], "\n\n\n"], end="\n"),
+                dict(head="#filter emptyLines\n", gaps=["\n" + FREE_RECORD[fmt], "\n\n" + FREE_RECORD[fmt]], end="\n")]
     if fmt == "po":
         return [dict(gaps=["\n\n"], end="\n"), dict(gaps=["\n"], end=""), dict(gaps=["\n\n\n" + FREE[fmt], "\n\n"], end="\n\n"),
-                dict(lead="\n", gaps=["\n\n"], end="\n"), dict(gaps=["\n" + FREE2[fmt], "\n\n" + FREE2[fmt]], end="\n")]
+                dict(lead="\n", gaps=["\n\n"], end="\n"), dict(gaps=["\n" + FREE2[fmt], "\n\n" + FREE2[fmt]], end="\n"),
+                dict(gaps=["\n\n" + FREE_RECORD[fmt], "\n" + FREE_RECORD[fmt]], end="\n")]
     if fmt == "ftl":
         return [dict(gaps=["\n"], end="\n"), dict(gaps=["\n\n"], end="", eq="="), dict(gaps=["\n\n" + FREE[fmt], "\n"], end="\n", eq="  =  "),
-                dict(lead="\n", gaps=["\n\n\n"], end="\n\n")]
+                dict(lead="\n", gaps=["\n\n\n"], end="\n\n"), dict(gaps=["\n\n" + FREE_RECORD[fmt]], end="\n")]
     if fmt == "android":
         H = '<?xml version="1.0" encoding="utf-8"?>\n<resources>'
         return [dict(head=H + "\n  ", gaps=["\n  "], end="\n</resources>\n"), dict(head="<resources>", gaps=[""], end="</resources>", cws=""),
                 dict(head=H + "\n\n  ", gaps=["\n\n  ", "\n  " + FREE[fmt]], end="\n\n</resources>", cws=" "),
                 dict(head='<resources xmlns:x="urn:x">\n', gaps=["\n"], end="\n</resources>\n", cws="\n"),
-                dict(head=H + "\n  ", gaps=["\n  " + FREE2[fmt]], end="\n</resources>\n")]
+                dict(head=H + "\n  ", gaps=["\n  " + FREE2[fmt]], end="\n</resources>\n"),
+                dict(head=H + "\n  ", gaps=["\n  " + FREE_RECORD[fmt]], end="\n</resources>\n")]
     raise KeyError(fmt)
 
 
@@ -690,15 +763,15 @@ def rand_layout(rng, fmt):
     lay = dict(rng.choice(layouts(fmt)))
     if fmt == "properties":
         lay.update(sep=rng.choice(PROPS_SEPS), trail=rng.choice(["", "", " ", "\t "]), indent=rng.choice(["", "", "  "]))
-        lay["gaps"] = [rng.choice(["\n", "\n\n", "\n  \n", "\n\n" + FREE[fmt], "\n" + FREE2[fmt]]) for _ in range(3)]
+        lay["gaps"] = [rng.choice(["\n", "\n\n", "\n  \n", "\n\n" + FREE[fmt], "\n" + FREE2[fmt], "\n" + FREE_RECORD[fmt]]) for _ in range(3)]
     elif fmt == "dtd":
         lay.update(w1=rng.choice([" ", "\n", "\t "]), w2=rng.choice([" ", "\n  "]), w3=rng.choice(["", " ", "\n"]),
                    cws=rng.choice(["\n", " ", "", "\n  "]))
-        lay["gaps"] = [rng.choice(["\n", "\n\n", "", " ", "\n\n" + FREE[fmt], "\n" + FREE2[fmt]]) for _ in range(3)]
+        lay["gaps"] = [rng.choice(["\n", "\n\n", "", " ", "\n\n" + FREE[fmt], "\n" + FREE2[fmt], "\n" + FREE_RECORD[fmt]]) for _ in range(3)]
     elif fmt == "ini":
-        lay["gaps"] = [rng.choice(["\n", "\n\n", "\n\n" + FREE[fmt], "\n" + FREE2[fmt]]) for _ in range(3)]
+        lay["gaps"] = [rng.choice(["\n", "\n\n", "\n\n" + FREE[fmt], "\n" + FREE2[fmt], "\n" + FREE_RECORD[fmt]]) for _ in range(3)]
     elif fmt == "po":
-        lay["gaps"] = [rng.choice(["\n", "\n\n", "\n\n\n", "\n\n" + FREE[fmt], "\n" + FREE2[fmt]]) for _ in range(3)]
+        lay["gaps"] = [rng.choice(["\n", "\n\n", "\n\n\n", "\n\n" + FREE[fmt], "\n" + FREE2[fmt], "\n\n" + FREE_RECORD[fmt]]) for _ in range(3)]
     elif fmt == "ftl":
         lay["gaps"] = [rng.choice(["\n", "\n\n", "\n\n" + FREE[fmt]]) for _ in range(3)]
     return lay
@@ -790,7 +863,7 @@ def rekey(fmt, r, i):
 
 
 def fixed_comments(fmt):
-    return [None, SIMPLE_COMMENT[fmt], MULTI_COMMENT[fmt], LICENSE_COMMENT[fmt]]
+    return [None, SIMPLE_COMMENT[fmt], MULTI_COMMENT[fmt], LICENSE_COMMENT[fmt], RECORD_COMMENT[fmt]]
 
 
 def gen_exhaustive(ctx, fmt):
@@ -861,6 +934,8 @@ def rand_record(rng, fmt, i):
         c = COMMENT[fmt](rng)
         if rng.random() < 0.15:
             c = LICENSE_COMMENT[fmt]
+        elif rng.random() < 0.2:
+            c = RECORD_COMMENT[fmt]
         r = r.with_comment(c)
     return r
 
@@ -1024,6 +1099,146 @@ def value_streams(out, ctx):
             out.disagreements.append({"op": lines[0].split()[0] if False else kind, "arg": arg, "impl": C.enc(got), "model": mo})
 
 
+# =============================================================================== round 4: the classes of the list theorems
+CLASSES = {
+    # name -> (format, generator(rng) -> K.Doc, documents quick/thorough)
+    "po.blocks": ("po", lambda rng: K.gen_po(rng, ref_po_unescape), (600, 15000)),
+    "properties.blocks": ("properties", lambda rng: K.gen_props(rng, ref_props_unescape), (600, 15000)),
+    # garbage locality: blocks, each optionally preceded by a garbage line (often directly in front of a comment whose text is a
+    # complete record), optionally a final garbage line
+    "po.garbage": ("po", lambda rng: K.gen_po(rng, ref_po_unescape, True), (600, 15000)),
+    "properties.garbage": ("properties", lambda rng: K.gen_props(rng, ref_props_unescape, True), (600, 15000)),
+    "ini.blocks+garbage": ("ini", lambda rng: K.gen_ini(rng), (800, 20000)),
+    "inc.blocks+garbage": ("inc", lambda rng: K.gen_inc(rng), (800, 20000)),
+    "dtd.blocks+garbage": ("dtd", lambda rng: K.gen_dtd(rng, ref_xml_unescape), (800, 20000)),
+}
+
+
+def class_streams(out, ctx):
+    """the printed classes of the round-4 list theorems, driven through the REAL parser: the expected entries (every span)
+    and the expected views are known by construction of the document; the model is compared on the same texts"""
+    for name, (fmt, gen, per) in CLASSES.items():
+        rng = ctx.rng("c02", "class", name)
+        docs = [gen(rng) for _ in range(ctx.n(*per))]
+        res = pool.pmap("impl.c02", "impl_class", [[fmt, d.text] for d in docs], timeout=4.0)
+        model = modele = None
+        if ctx.model_ok:
+            model = C.run_driver_parallel(["parse %s %s" % (fmt, C.enc(d.text)) for d in docs])
+            modele = C.run_driver_parallel(["ents %s %s" % (fmt, C.enc(d.text)) for d in docs])
+        for i, (d, r) in enumerate(zip(docs, res)):
+            out.evaluations += 1
+            out.count("class.%s" % name)
+            for f in d.features:
+                out.count("class.feature.%s" % f)
+            out.nontrivial.add((name, d.text))
+            bad = None
+            if r.get("exc") == "Hang":
+                bad = "parsing does not terminate"
+            elif "exc" in r:
+                bad = "parsing raised %s: %s" % (r["exc"], r.get("msg"))
+            else:
+                v = r["r"]
+                want = " | ".join(["done"] + d.entries)
+                if v["spans"] != want:
+                    bad = "entries (kind full start end key-span val-span pre-comment-span) %r, expected by construction %r" % (v["spans"], want)
+                elif v["ents"] != d.views:
+                    bad = "entity views %r, expected by construction %r" % (v["ents"], d.views)
+                elif v["junk"] != d.junk:
+                    bad = "junk %r, expected %r" % (v["junk"], d.junk)
+            if bad:
+                out.violations.append({"what": "%s class %s: %s" % (fmt, name, bad),
+                                       "input": {"fmt": fmt, "text": d.text, "class": name, "entries": d.entries, "views": d.views,
+                                                 "junk": d.junk}, "finding": None})
+                out.count("class.%s.violations" % name)
+                continue
+            if model is not None and model[i] != r["r"]["spans"]:
+                out.disagreements.append({"op": "parse(class %s)" % name, "fmt": fmt, "text": d.text, "impl": r["r"]["spans"], "model": model[i]})
+            elif modele is not None and modele[i] != r["r"]["canon"]:
+                out.disagreements.append({"op": "ents(class %s)" % name, "fmt": fmt, "text": d.text, "impl": r["r"]["canon"], "model": modele[i]})
+            if len(out.samples) < 20 and out.distribution.get("sampled.class." + name, 0) < 1 and len(d.entries) >= 4:
+                out.count("sampled.class." + name)
+                out.samples.append({"class": name, "text": d.text, "expected_entries": d.entries, "expected_views": d.views})
+
+
+# =============================================================================== Android: comment groups, trailing comments, PIs, junk documents
+def android_extra_doc(rng):
+    """-> text, expected entities, expected junk (None = one junk entry, any text), expected stand-alone comments.
+    Consecutive comments separated by white-space with at most one newline are ONE comment (joined with the normalised
+    white-space); the group is attached to a <string> that follows it after white-space with at most one newline, otherwise
+    (end of <resources>, a processing instruction, a blank line) it is a stand-alone comment."""
+    r = rng.random()
+    if r < 0.06:
+        text = '<resources><string name="k">v</string'            # not well-formed: ONE junk entry, the whole text
+        return text, [], [text], []
+    if r < 0.12:
+        return '<other><string name="k">v</string></other>', [], None, []
+    ws1 = lambda: rng.choice(["", " ", "\n", "\n  ", "\t"])
+    ws2 = lambda: rng.choice(["\n\n", "\n  \n  ", "\n\n\n"])
+    out, ents, comments = ["<resources>" + rng.choice(["", "\n  "])], [], []
+    n = rng.choice([1, 2, 3, 4])
+    for i in range(n):
+        kind = rng.choice(["string", "string", "group+string", "group+string", "group+blank", "group+pi"])
+        cval = None
+        if kind.startswith("group"):
+            k = rng.choice([1, 1, 2, 3])
+            texts = [rng.choice(["", " "]) + rand_plain(rng, extra="=<>&'\"", forbid="-", n=rng.randrange(1, 6)) + rng.choice(["", " "])
+                     for _ in range(k)]
+            seps = [ws1() for _ in range(k - 1)]
+            xml = "<!--" + texts[0] + "-->"
+            cval = ref_android_normalize(texts[0])
+            for s_, t_ in zip(seps, texts[1:]):
+                xml += s_ + "<!--" + t_ + "-->"
+                cval += ref_android_normalize(s_) + ref_android_normalize(t_)
+            out.append(xml)
+            if kind == "group+blank":
+                out.append(ws2())
+                comments.append(cval)
+                cval = None
+            elif kind == "group+pi":
+                out.append(ws1() + "<?pi x?>" + ws1())
+                comments.append(cval)
+                cval = None
+            else:
+                out.append(ws1())
+        key = "k%d" % i
+        val = rand_plain(rng, extra="=:'", n=rng.randrange(0, 6)).strip()
+        out.append('<string name="%s">%s</string>' % (key, val) + rng.choice(["", "\n  ", "\n\n  "]))
+        ents.append([key, val, val, cval])
+    if rng.random() < 0.5:
+        # a comment group at the very end of <resources>: stand-alone
+        t_ = " " + rand_plain(rng, forbid="-", n=3) + " "
+        out.append("<!--" + t_ + "-->" + rng.choice(["", "\n", "\n\n"]))
+        comments.append(ref_android_normalize(t_))
+    out.append("</resources>" + rng.choice(["", "\n"]))
+    return "".join(out), ents, [], comments
+
+
+def android_extra(out, ctx):
+    rng = ctx.rng("c02", "android-extra")
+    docs = [android_extra_doc(rng) for _ in range(ctx.n(400, 6000))]
+    res = pool.pmap("impl.c02", "impl_entities", [["android", d[0]] for d in docs], timeout=4.0)
+    for (text, ents, junk, comments), r in zip(docs, res):
+        out.evaluations += 1
+        out.count("android.extra")
+        out.nontrivial.add(("android.extra", text))
+        bad = None
+        if "exc" in r:
+            bad = "parsing raised %s: %s" % (r["exc"], r.get("msg"))
+        else:
+            v = r["r"]
+            if v["ents"] != ents:
+                bad = "entities %r, expected %r" % (v["ents"], ents)
+            elif junk is None and len(v["junk"]) != 1:
+                bad = "expected ONE junk entry for a document whose root is not <resources>, got %r" % (v["junk"],)
+            elif junk is not None and v["junk"] != junk:
+                bad = "junk %r, expected %r" % (v["junk"], junk)
+            elif v["comments"] != comments:
+                bad = "stand-alone comments %r, expected %r" % (v["comments"], comments)
+        if bad:
+            out.violations.append({"what": "android (comment groups / document junk): %s" % bad,
+                                   "input": {"fmt": "android", "text": text, "android_extra": [ents, junk, comments]}, "finding": None})
+
+
 def po_wellformed(frag):
     """does the fragment match the body of reListItem: (?:\\\\[\\\\trn"]|[^"\\n\\\\])*"""
     i, n = 0, len(frag)
@@ -1079,6 +1294,8 @@ def run(ctx):
                 if "r" in r and r["r"]["canon"] != mo:
                     out.disagreements.append({"op": "fluentwalk", "text": t, "impl": r["r"]["canon"], "model": mo})
     value_streams(out, ctx)
+    class_streams(out, ctx)
+    android_extra(out, ctx)
     probes(out)
     return out
 
@@ -1156,6 +1373,23 @@ def probes(out):
     notes.append("dtd key starting with a digit `<!ENTITY 1a \"x\">\\n` -> %r" % (both("dtd", '<!ENTITY 1a "x">\n'),))
     notes.append("po quoted text on the line after msgstr `msgid \"a\"\\nmsgstr \"x\"\\n\"yz\"\\n` -> %r (continuation fragment)" % (
         both("po", 'msgid "a"\nmsgstr "x"\n"yz"\n'),))
+    # round 4: excluded points of the whole-file theorems
+    notes.append("dtd garbage directly in front of a PARAMETER ENTITY `x\\n<!ENTITY %% n SYSTEM \"u\"> %%n;\\n<!ENTITY k \"v\">` -> %r (neither reKey nor "
+                 "reComment matches at `<!ENTITY %%`: the junk swallows the parameter entity; excluded by `JOk`)" % (
+                     both("dtd", 'x\n<!ENTITY % n SYSTEM "u"> %n;\n<!ENTITY k "v">'),))
+    notes.append("ini INDENTED comment `a=b\\n  ; c\\nx=y\\n` -> %r (`^` in reComment: not a comment, junk)" % (both("ini", "a=b\n  ; c\nx=y\n"),))
+    notes.append("ini garbage followed by an indented record `oops\\n  x=y\\n` -> %r (the indentation is part of the KEY: reKey is `.+?=`)" % (
+        both("ini", "oops\n  x=y\n"),))
+    notes.append("po garbage line starting with a quote `msgid \"a\"\\nmsgstr \"b\"\\n\"x\" y\\n` -> %r (the quoted text continues msgstr)" % (
+        both("po", 'msgid "a"\nmsgstr "b"\n"x" y\n'),))
+    notes.append("properties key containing a blank `a b=c` -> %r (kept by the code; the theorem's key class has no blanks)" % (both("properties", "a b=c\n"),))
+    notes.append("inc blank line without `#filter emptyLines` `#define A b\\n\\n#define C d\\n` -> %r (two newlines are junk)" % (
+        both("inc", "#define A b\n\n#define C d\n"),))
+    notes.append("android <string> with mixed content `<string name=\"k\"><b>x</b> y</string>` -> %r (textContent falls back to toxml())" % (
+        both("android", '<resources><string name="k"><b>x</b> y</string></resources>'),))
+    from impl.parse import get_parser
+    notes.append("walk() of a parser that has read nothing yields no entry: %r" % (
+        {f: len(list(get_parser(f).walk())) for f in FORMATS},))
     out.notes += notes
 
 
@@ -1168,6 +1402,19 @@ def replay(payload):
             got = I.impl_values(i["kind"], i["arg"])
             want = ref_props_unescape(i["arg"]) if i["kind"] == "props" else ref_po_unescape(i["arg"])
             res.append({"input": i, "got": got, "expected": want, "oracle": None if got == want else "value differs"})
+            continue
+        if "android_extra" in i:
+            r = pool.pmap("impl.c02", "impl_entities", [["android", i["text"]]], timeout=10.0)[0]
+            ents, junk, comments = i["android_extra"]
+            ok = "r" in r and r["r"]["ents"] == ents and r["r"]["comments"] == comments and \
+                ((junk is None and len(r["r"]["junk"]) == 1) or r["r"]["junk"] == junk)
+            res.append({"input": {"fmt": "android", "text": i["text"]}, "oracle": None if ok else "entities/comments/junk differ from the construction"})
+            continue
+        if "class" in i:
+            r = pool.pmap("impl.c02", "impl_class", [[i["fmt"], i["text"]]], timeout=10.0)[0]
+            ok = "r" in r and r["r"]["spans"] == " | ".join(["done"] + i["entries"]) and r["r"]["ents"] == i["views"] and \
+                r["r"]["junk"] == i["junk"]
+            res.append({"input": {"fmt": i["fmt"], "text": i["text"]}, "oracle": None if ok else "entries/views differ from the construction"})
             continue
         r = pool.pmap("impl.c02", "impl_entities", [[i["fmt"], i["text"]]], timeout=10.0)[0]
         d = Doc(i["fmt"], [Rec(e[0], e[1], e[2], None, e[3], block=b) for e, b in zip(i["expected"], i.get("block") or [False] * len(i["expected"]))],
